@@ -20,7 +20,7 @@ Definition acc_guard (jb : job) : Prop :=
   end.
 
 Lemma inv_of_fresh e tm ic fns srcf dstf ws wd rm wm :
-  Forall fresh srcf -> Forall fresh dstf -> Inv e tm ic fns (mkSt srcf dstf ws wd rm wm).
+  Forall fresh srcf -> Forall fresh dstf -> Inv e tm ic fns ws wd (mkSt srcf dstf ws wd rm wm).
 Proof.
   intros Fs Fd. rewrite Forall_forall in Fs, Fd.
   split; apply inv_init; simpl; intros k Hk.
@@ -32,7 +32,7 @@ Qed.
 
 Lemma prepare_ok jb pr :
   prepare jb = Some pr -> acc_guard jb ->
-  Inv (j_env jb) (p_tags (pr_src pr)) (j_ic jb) (j_funcs jb) (pr_s0 pr)
+  Inv (j_env jb) (p_tags (pr_src pr)) (j_ic jb) (j_funcs jb) (s_wsrc (pr_s0 pr)) (s_wdst (pr_s0 pr)) (pr_s0 pr)
   /\ NoDup (map f_name (s_src (pr_s0 pr))) /\ NoDup (map f_name (s_dst (pr_s0 pr))).
 Proof.
   unfold prepare, acc_guard.
@@ -64,16 +64,21 @@ Proof.
   intros H. inversion H; subst; clear H. exists pr. simpl. auto.
 Qed.
 
-Theorem analyse_inv sigma jb a :
-  analyse sigma jb = Some a -> acc_guard jb ->
-  Inv (j_env jb) (p_tags (a_src_parsed a)) (j_ic jb) (j_funcs jb) (a_state a)
+Theorem analyse_inv sigma jb a pr :
+  analyse sigma jb = Some a -> prepare jb = Some pr -> acc_guard jb ->
+  Inv (j_env jb) (p_tags (a_src_parsed a)) (j_ic jb) (j_funcs jb)
+      (s_wsrc (pr_s0 pr)) (s_wdst (pr_s0 pr)) (a_state a)
   /\ NoDup (map f_name (s_src (a_state a))) /\ NoDup (map f_name (s_dst (a_state a))).
 Proof.
-  intros H G. destruct (analyse_state _ _ _ H) as (pr & P & S & T). rewrite S, T.
-  destruct (prepare_ok _ _ P G) as (I0 & Ns & Nd).
-  destruct (passes_ok _ _ _ _ _ I0) as (I2 & C). fold (run_passes (j_env jb) (p_tags (pr_src pr)) (j_ic jb) (j_funcs jb) (pr_s0 pr)) in *.
+  intros H P0 G. destruct (analyse_state _ _ _ H) as (pr' & P & S & T). rewrite P0 in P. inversion P; subst pr'.
+  rewrite S, T.
+  destruct (prepare_ok _ _ P0 G) as (I0 & Ns & Nd).
+  destruct (passes_ok _ _ _ _ _ _ _ I0) as (I2 & C). fold (run_passes (j_env jb) (p_tags (pr_src pr)) (j_ic jb) (j_funcs jb) (pr_s0 pr)) in *.
   destruct (core_names _ _ C) as (Es & Ed). rewrite Es, Ed. auto.
 Qed.
+
+Lemma analyse_prepare sigma jb a : analyse sigma jb = Some a -> exists pr, prepare jb = Some pr.
+Proof. intros H. destruct (analyse_state _ _ _ H) as (pr & P & _). eauto. Qed.
 
 Lemma analyse_stmts sigma jb a :
   analyse sigma jb = Some a ->
@@ -90,7 +95,7 @@ Theorem analyse_write_once sigma jb a :
   NoDup (map (fun st => r_name (st_dst st)) (pl_stmts (a_to a)))
   /\ NoDup (map (fun st => r_name (st_dst st)) (pl_stmts (a_from a))).
 Proof.
-  intros H G. destruct (analyse_inv _ _ _ H G) as (I & Ns & Nd).
+  intros H G. destruct (analyse_prepare _ _ _ H) as (pr & P). destruct (analyse_inv _ _ _ _ H P G) as (I & Ns & Nd).
   destruct (analyse_stmts _ _ _ H) as ((sp & n1 & E1) & (dp & n2 & E2)). rewrite E1, E2.
   split; [eapply to_stmts_write_once | eapply from_stmts_write_once]; eauto.
 Qed.
@@ -106,9 +111,9 @@ Theorem analyse_sound_to sigma jb a :
                 /\ can_name_match sf df (p_tags (a_src_parsed a)) (j_ic jb) = true
                 /\ applicable (j_env jb) (j_funcs jb) true sf df (st_how st).
 Proof.
-  intros H G st Hst. destruct (analyse_inv _ _ _ H G) as (I & _).
+  intros H G st Hst. destruct (analyse_prepare _ _ _ H) as (pr & P). destruct (analyse_inv _ _ _ _ H P G) as (I & _).
   destruct (analyse_stmts _ _ _ H) as ((sp & n1 & E1) & _). rewrite E1 in Hst.
-  destruct (to_stmts_sound _ _ _ _ _ _ _ I st Hst) as (i & j & Hi & Hj & A & B & _ & C & D).
+  destruct (to_stmts_sound _ _ _ _ _ _ _ _ _ I st Hst) as (i & j & Hi & Hj & A & B & _ & C & D).
   exists (src_at (a_state a) i), (dst_at (a_state a) j).
   repeat split; auto; apply nth_In; auto.
 Qed.
@@ -121,9 +126,9 @@ Theorem analyse_sound_from sigma jb a :
                 /\ can_name_match sf df (p_tags (a_src_parsed a)) (j_ic jb) = true
                 /\ applicable (j_env jb) (j_funcs jb) false df sf (st_how st).
 Proof.
-  intros H G st Hst. destruct (analyse_inv _ _ _ H G) as (I & _).
+  intros H G st Hst. destruct (analyse_prepare _ _ _ H) as (pr & P). destruct (analyse_inv _ _ _ _ H P G) as (I & _).
   destruct (analyse_stmts _ _ _ H) as (_ & (dp & n2 & E2)). rewrite E2 in Hst.
-  destruct (from_stmts_sound _ _ _ _ _ _ _ I st Hst) as (i & j & Hi & Hj & A & B & _ & C & D).
+  destruct (from_stmts_sound _ _ _ _ _ _ _ _ _ I st Hst) as (i & j & Hi & Hj & A & B & _ & C & D).
   exists (src_at (a_state a) i), (dst_at (a_state a) j).
   repeat split; auto; apply nth_In; auto.
 Qed.
